@@ -383,6 +383,8 @@ def run(ctx):
                         conn.socket = types.SimpleNamespace(send=lambda d: len(d))
                         conn._write_packet(pk)
                     else:
+                        conn.socket = types.SimpleNamespace(send=lambda d: len(d))
+                        conn.connected = True
                         conn.reactor = types.SimpleNamespace(react=lambda p: None)
                         conn._react(pk)
                 except Exception as e:
@@ -438,6 +440,66 @@ def run(ctx):
             ctx.violation('an outgoing listener writes a packet (forced) while it is being called: listener calls %r, expected %r; '
                           'on the wire: outer=%s nested=%s' % (log, want, b'outer' in sent, (b'secret' in sent) or (b'inner' in sent)),
                           {'variant': variant}, key={'kind': 'nested-write', 'variant': variant % 2})
+    # ---- (a) "ordinary outgoing listeners run after it has been written": when such a listener is called for a QUEUED packet,
+    # the server has that packet's frame;  (b) an early incoming listener that calls disconnect() and returns normally has
+    # not signalled 'ignore': the built-in reaction and the ordinary listeners still run for that packet
+    for variant in range(ctx.scale(4, 16)):
+        cfg = {'version': V, 'script': ([('compress', 64)] if variant % 2 else []) + [('success',)]}
+        seen_at_call = []
+        with simnet.Net(lambda s: RefServer(s, cfg)) as net:
+            conn = C.Connection('h', 1, username='u', allowed_versions={V}, handle_exception=lambda e, i: seen_at_call.append(('EXC', repr(e))))
+            nq = 2 + variant % 3
+
+            def on_success(p):
+                for k in range(nq):
+                    conn.write_packet(sb.play.ChatPacket(message='queued-%d' % k))
+            conn.register_packet_listener(on_success, cb.login.LoginSuccessPacket)
+
+            def after_write(p):
+                srv_ = cfg['servers'][0]
+                got_ = [f for f in srv_.frames if f[0] == 'play' and p.message.encode() in f[2]]
+                seen_at_call.append((p.message, len(got_)))
+            conn.register_packet_listener(after_write, sb.play.ChatPacket, outgoing=True)
+            conn.connect()
+            net.run_threads()
+        ctx.case(('after-written', variant))
+        want = [('queued-%d' % k, 1) for k in range(nq)]
+        if seen_at_call != want:
+            ctx.violation('%d queued chat packets, an ordinary outgoing listener looks at what the server has received when it is called: %r '
+                          '(expected each packet\'s own frame to be there: %r)' % (nq, seen_at_call[:6], want),
+                          {'variant': variant}, key={'kind': 'after-written'})
+    for variant in range(ctx.scale(3, 9)):
+        cfg = {'version': V, 'script': [('success',), ('keepalive', 41 + variant)]}
+        elog = []
+        orig_r = C.PlayingReactor.react
+
+        def react_c(self, packet):
+            if isinstance(packet, cb.play.KeepAlivePacket):
+                elog.append('R')
+            return orig_r(self, packet)
+        C.PlayingReactor.react = react_c
+        try:
+            with simnet.Net(lambda s: RefServer(s, cfg)) as net:
+                conn = C.Connection('h', 1, username='u', allowed_versions={V}, handle_exception=lambda e, i: elog.append('EXC:%s' % type(e).__name__))
+                conn.register_packet_listener(lambda p: elog.append('e1'), cb.play.KeepAlivePacket, early=True)
+
+                def e2(p):
+                    elog.append('e2')
+                    if variant % 3 != 2:
+                        conn.disconnect(immediate=bool(variant % 3))
+                conn.register_packet_listener(e2, cb.play.KeepAlivePacket, early=True)
+                conn.register_packet_listener(lambda p: elog.append('e3'), cb.play.KeepAlivePacket, early=True)
+                conn.register_packet_listener(lambda p: elog.append('o1'), cb.play.KeepAlivePacket)
+                conn.register_packet_listener(lambda p: elog.append('o2'), cb.play.KeepAlivePacket)
+                conn.connect()
+                net.run_threads()
+        finally:
+            C.PlayingReactor.react = orig_r
+        ctx.case(('early-listener-disconnects', variant))
+        if [x for x in elog if not x.startswith('EXC')] != ['e1', 'e2', 'e3', 'R', 'o1', 'o2']:
+            ctx.violation('an early listener %s and returns normally (no ignore): stages that ran for the keep-alive: %r, expected '
+                          'e1 e2 e3, the built-in reaction, o1 o2' % (['calls disconnect()', 'calls disconnect(immediate=True)', 'does nothing'][variant % 3], elog),
+                          {'variant': variant}, key={'kind': 'early-listener-disconnects', 'variant': variant % 3})
     # ---- an early listener that ignores Set Compression suppresses the built-in reaction: compression stays
     # off, and it is still off while the early listener runs
     for state in ('login',):
